@@ -229,7 +229,8 @@ Definition update_var_domain (st : state) (x : nat) (xt : term) (d : fd) : sres 
 
 (* State::process_domain *)
 Definition process_domain (st : state) (x : term) (d : fd) : sres :=
-  match x with
+  (* repaired: the variable is walked first (the caller may hold a variable bound in the meantime) *)
+  match wk (st_smap st) x with
   | TVar v _ => update_var_domain st v x d
   | TVal (LNum n) => if fd_contains d n then SOk st else SFail
   | _ => SFail
@@ -370,7 +371,8 @@ Definition run_constraint (id : nat) (c : constraint) (st : state) : sres :=
           let ns := filter (fun t => negb (is_var t)) elems in
           if forallb (fun t => match get_number t with Some _ => true | None => false end) ns then
             let n := isort (flat_map (fun t => match get_number t with Some z => [z] | None => [] end) ns) in
-            if strictly_increasing n then SOk (with_new_constraint st (KDistinct2 u xs n)) else SFail
+            (* repaired: the new constraint object is run at once instead of only being stored *)
+            if strictly_increasing n then run_constraint_rec (st_nextc st) (KDistinct2 u xs n) (bump_nextc st) else SFail
           else SPanic panic_site_distinct_value
       | _ => SPanic panic_site_distinct_arg
       end
